@@ -135,7 +135,8 @@ def w_stats(w, cfg):
         xs = [z3.Int(f"x{i}") for i in range(n)]
         cells = [nd if groups[i] == allnd else xs[i] for i in range(n)]
         # observations of either sign when asked for (a negative observation that is not the nodata marker is legal input)
-        assume = ([x >= -10000 for x in xs] if cfg.get("signed") else [x >= 0 for x in xs]) + [x != nd for x in xs] + [nd < 0]
+        assume = ([x >= -10000 for x in xs] if cfg.get("signed") else [x >= 0 for x in xs]) + [x <= 32767 for x in xs] + [x != nd for x in xs] \
+            + [nd < 0, nd >= -32768]
         it.assume(*assume)
         it.prune_mode = "facts"
         it.overrides["brentq"] = lambda it_, st_, args, kw: it_.A.fresh("alpha", "real")
